@@ -144,7 +144,7 @@ def fp_drpchttp_protocol_grpc_web_grpcWebProtocol_framedWrite : List String :=
   ["5", "0", "call:binary.BigEndian.PutUint32", "slice", "1", "5", "call:uint32", "call:len", 
     "return", "call:gwp.write", "call:append", "slice"]
 def fp_drpchttp_protocol_grpc_web_grpcWebStream_MsgSend : List String :=
-  ["call:gws.gwp.marshal", "if", "!=", "return", "if", ">=", "call:len", "return", "call:errs.New", 
+  ["call:gws.gwp.marshal", "if", "!=", "return", "if", ">", "call:len", "return", "call:errs.New", 
     "s:message too large", "if", "call:gws.gwp.framedWrite", "0", "!=", "return", "if", "call:fl.Flush", 
     "return"]
 def fp_drpchttp_protocol_grpc_web_grpcWebStream_Finish : List String :=
@@ -166,35 +166,43 @@ def fp_drpchttp_protocol_twirp_twirpStream_Finish : List String :=
 def fp_drpchttp_protocol_twirp_setErrorOrEOF : List String :=
   ["if", "=="]
 def fp_drpcsignal_signal_Signal_Signal : List String :=
-  ["if", "!=", "&", "call:atomic.LoadUint32", "u&", "statusChannelCreated=1", "0", "return", "return", 
-    "call:s.signalSlow"]
+  ["if", "!=", "&", "call:atomic.LoadUint32", "u&", "statusChannelCreated=1", "0", "call:drpcdebug.Point", 
+    "s:signal.Signal.fast", "return", "return", "call:s.signalSlow"]
 def fp_drpcsignal_signal_Signal_signalSlow : List String :=
-  ["call:s.mu.Lock", "if", "==", "&", "statusChannelCreated=1", "0", "call:make", "call:atomic.StoreUint32", 
-    "u&", "|", "statusChannelCreated=1", "call:s.mu.Unlock", "return"]
+  ["call:drpcdebug.Point", "s:signal.signalSlow.enter", "call:s.mu.Lock", "call:drpcdebug.Point", 
+    "s:signal.signalSlow.locked", "if", "==", "&", "statusChannelCreated=1", "0", "call:make", 
+    "call:drpcdebug.Point", "s:signal.signalSlow.made", "call:atomic.StoreUint32", "u&", "|", "statusChannelCreated=1", 
+    "call:drpcdebug.Point", "s:signal.signalSlow.unlock", "call:s.mu.Unlock", "return"]
 def fp_drpcsignal_signal_Signal_Set : List String :=
   ["if", "!=", "&", "call:atomic.LoadUint32", "u&", "statusErrorSet=2", "0", "return", "return", 
     "call:s.setSlow"]
 def fp_drpcsignal_signal_Signal_setSlow : List String :=
-  ["call:s.mu.Lock", "if", "==", "&", "statusErrorSet=2", "0", "if", "==", "&", "statusChannelCreated=1", 
-    "0", "call:atomic.StoreUint32", "u&", "|", "statusErrorSet=2", "statusChannelCreated=1", "if", 
-    "!=", "&", "statusChannelCreated=1", "0", "call:close", "call:s.mu.Unlock", "return"]
+  ["call:drpcdebug.Point", "s:signal.setSlow.enter", "call:s.mu.Lock", "call:drpcdebug.Point", 
+    "s:signal.setSlow.locked", "if", "==", "&", "statusErrorSet=2", "0", "call:drpcdebug.Point", 
+    "s:signal.setSlow.err", "if", "==", "&", "statusChannelCreated=1", "0", "call:drpcdebug.Point", 
+    "s:signal.setSlow.ch", "call:atomic.StoreUint32", "u&", "|", "statusErrorSet=2", "statusChannelCreated=1", 
+    "call:drpcdebug.Point", "s:signal.setSlow.stored", "if", "!=", "&", "statusChannelCreated=1", 
+    "0", "call:close", "call:drpcdebug.Point", "s:signal.setSlow.unlock", "call:s.mu.Unlock", "return"]
 def fp_drpcsignal_signal_Signal_Get : List String :=
-  ["if", "!=", "&", "call:atomic.LoadUint32", "u&", "statusErrorSet=2", "0", "return", "return"]
+  ["if", "!=", "&", "call:atomic.LoadUint32", "u&", "statusErrorSet=2", "0", "call:drpcdebug.Point", 
+    "s:signal.Get.fast", "return", "return"]
 def fp_drpcsignal_signal_Signal_IsSet : List String :=
   ["return", "!=", "&", "call:atomic.LoadUint32", "u&", "statusErrorSet=2", "0"]
 def fp_drpcsignal_signal_Signal_Err : List String :=
-  ["if", "!=", "&", "call:atomic.LoadUint32", "u&", "statusErrorSet=2", "0", "return", "return"]
+  ["if", "!=", "&", "call:atomic.LoadUint32", "u&", "statusErrorSet=2", "0", "call:drpcdebug.Point", 
+    "s:signal.Err.fast", "return", "return"]
 def fp_drpcsignal_chan_Chan_do : List String :=
   ["return", "&&", "==", "call:atomic.LoadUint32", "u&", "0", "call:c.doSlow"]
 def fp_drpcsignal_chan_Chan_doSlow : List String :=
-  ["call:c.mu.Lock", "defer", "call:c.mu.Unlock", "if", "==", "0", "defer", "call:atomic.StoreUint32", 
-    "u&", "1", "call:f", "return", "return"]
+  ["call:drpcdebug.Point", "s:chan.doSlow.enter", "call:c.mu.Lock", "defer", "call:c.mu.Unlock", 
+    "call:drpcdebug.Point", "s:chan.doSlow.locked", "if", "==", "0", "defer", "call:atomic.StoreUint32", 
+    "u&", "1", "defer", "call:drpcdebug.Point", "s:chan.doSlow.store", "call:f", "return", "return"]
 def fp_drpcsignal_chan_Chan_Close : List String :=
-  ["if", "u!", "call:c.do", "call:close"]
+  ["if", "u!", "call:c.do", "call:drpcdebug.Point", "s:chan.Close.close", "call:close"]
 def fp_drpcsignal_chan_Chan_Make : List String :=
   ["call:c.do", "call:make"]
 def fp_drpcsignal_chan_Chan_Get : List String :=
-  ["call:c.do", "return"]
+  ["call:c.do", "call:drpcdebug.Point", "s:chan.Get.read", "return"]
 def fp_drpcsignal_chan_Chan_Send : List String :=
   ["call:c.do", "send"]
 def fp_drpcsignal_chan_Chan_Recv : List String :=
